@@ -491,11 +491,13 @@ pub struct RandCfg {
     pub open_refs: bool,
     pub lookbehind: bool,
     pub max_nodes: usize,
+    /// only the syntax shared with the regex crate (no look-around, atomic, back-reference, possessive)
+    pub plain: bool,
 }
 
 impl RandCfg {
     pub fn core() -> Self {
-        RandCfg { lits: vec!['a', 'b', 'c', 'é'], cond: false, keepout: true, contg: false, open_refs: false, lookbehind: true, max_nodes: 14 }
+        RandCfg { lits: vec!['a', 'b', 'c', 'é'], cond: false, keepout: true, contg: false, open_refs: false, lookbehind: true, max_nodes: 14, plain: false }
     }
     pub fn cond() -> Self {
         RandCfg { cond: true, ..Self::core() }
@@ -544,7 +546,9 @@ impl<'c, 'a> RandGen<'c, 'a> {
             13 => Assert(A::NotWordB),
             14..=17 => {
                 let refs = self.refs();
-                if refs.is_empty() {
+                if self.cfg.plain {
+                    [Perl('W'), Assert(A::WordStart), Assert(A::WordEnd), AnyNl][self.d.below(4)].clone()
+                } else if refs.is_empty() {
                     Lit(self.cfg.lits[0])
                 } else {
                     Backref(refs[self.d.below(refs.len())])
@@ -582,7 +586,10 @@ impl<'c, 'a> RandGen<'c, 'a> {
         if budget <= 1 || self.nodes >= self.cfg.max_nodes || self.d.exhausted() {
             return self.leaf();
         }
-        let r = self.d.below(28);
+        let mut r = self.d.below(28);
+        if self.cfg.plain && r >= 21 {
+            r = 3 + (r - 21) * 2; // look-around / atomic / conditional slots become concat, alt, group, repeat
+        }
         self.nodes += 1;
         match r {
             0..=2 => self.leaf_undo(),
@@ -632,7 +639,10 @@ impl<'c, 'a> RandGen<'c, 'a> {
                 }
                 const R: [(u32, Option<u32>); 8] = [(0, Some(1)), (0, None), (1, None), (2, Some(2)), (1, Some(2)), (0, Some(2)), (2, None), (1, Some(3))];
                 let (lo, hi) = R[self.d.below(R.len())];
-                let q = [Q::Greedy, Q::Greedy, Q::Lazy, Q::Poss][self.d.below(4)];
+                let mut q = [Q::Greedy, Q::Greedy, Q::Lazy, Q::Poss][self.d.below(4)];
+                if self.cfg.plain && q == Q::Poss {
+                    q = Q::Lazy;
+                }
                 Repeat(bx(c), lo, hi, q)
             }
             21..=23 => {
